@@ -35,4 +35,10 @@ def extra(binary, build, tier, rng):
     specs = [("shuf", n, 0, 60, n - 1) for n in (2, 3, 4)] + [("pshuf", n, k, 60, min(k, n - 1)) for n in (2, 3, 4) for k in range(0, n + 2)]
     if tier == "thorough":
         specs += [("shuf", 5, 0, 60, 4), ("pshuf", 5, 3, 60, 3), ("pshuf", 5, 9, 60, 4)]
-    return run_enum(binary, specs, "enumerated-draw-tuples")
+    yield from run_enum(binary, specs, "enumerated-draw-tuples")
+    # frequency test under real generators (model-free; alarm only beyond a 1e-12 chi-square bound)
+    from .stat_oracle import run_stat, samples_for
+    specs = []
+    for (kind, n, k) in [("shuf", 2, 0), ("shuf", 3, 0), ("shuf", 4, 0), ("shuf", 5, 0), ("pshuf", 4, 2), ("pshuf", 6, 2), ("pshuf", 5, 4), ("pshuf", 5, 5), ("pshuf", 4, 9), ("pshuf", 7, 1)] + ([("shuf", 6, 0), ("pshuf", 8, 3), ("pshuf", 6, 5)] if tier == "thorough" else []):
+        specs.append((kind, n, k, samples_for(kind, n, k, tier), rng.u64(), None, rng.choice(["xoshiro", "splitmix", "wyrand", "chacha8"])))
+    yield from run_stat(binary, specs, "frequency-test-samples", build)
